@@ -43,6 +43,8 @@ type cRead struct {
 	val       string
 	found     bool
 	pts       []kvmodel.KV
+	spans     []kvmodel.Span // range keys seen by the same iterator (profiles with range keys)
+	hasSpans  bool
 	startStep int
 	endStep   int
 	// for snapshot reads: the snapshot's creation window
@@ -74,6 +76,10 @@ func (g *gen) genCommit(profile string) {
 	readers := 1 + g.r.IntN(2)
 	g.cfg.Clients = writers + readers + 1
 	g.cfg.MemTableSize = pick(&g.r, []int{2 << 10, 4 << 10, 16 << 10})
+	// Half of the plans put range-key operations into the batches; scans then
+	// use one combined iterator and the range keys it reports take part in the
+	// atomicity / visibility oracle.
+	g.cfg.ConcRangeKeys = g.r.IntN(2) == 0
 	perW := 4 + g.r.IntN(12)
 	if g.tier == "thorough" {
 		perW = 4 + g.r.IntN(25)
@@ -84,6 +90,9 @@ func (g *gen) genCommit(profile string) {
 			b := DBOp{C: w + 1, K: "batch", Sync: g.r.IntN(4) == 0, Mode: pick(&g.r, []string{"apply", "commit", "commit", "nosyncwait"})}
 			for j := 0; j < n; j++ {
 				o := g.pointOp(false)
+				if g.cfg.ConcRangeKeys && g.r.IntN(4) == 0 {
+					o = g.rangeKeyOp()
+				}
 				if o.K == "logdata" {
 					o = DBOp{K: "set", Key: g.key()}
 					o.Val, o.VLen = g.val()
@@ -310,24 +319,50 @@ func (h *dbHarness) concGet(c int, key string) {
 
 func (h *dbHarness) concScan(c int, rd pebble.Reader, reverse bool, kind string, snap *concSnap) {
 	r := &cRead{client: c, kind: kind, startStep: h.step()}
-	it, err := rd.NewIter(nil)
+	var io *pebble.IterOptions
+	if h.cfg.ConcRangeKeys {
+		io = &pebble.IterOptions{KeyTypes: pebble.IterKeyTypePointsAndRanges}
+		r.hasSpans = true
+	}
+	it, err := rd.NewIter(io)
 	if err != nil {
 		h.opErr("newiter", err)
 		return
 	}
+	visit := func() {
+		hasPoint, hasRange := true, false
+		if r.hasSpans {
+			hasPoint, hasRange = it.HasPointAndRange()
+		}
+		if hasPoint {
+			v, _ := it.ValueAndErr()
+			r.pts = append(r.pts, kvmodel.KV{K: string(it.Key()), V: string(v)})
+		}
+		if hasRange {
+			st, en := it.RangeBounds()
+			if n := len(r.spans); n == 0 || r.spans[n-1].Start != string(st) {
+				sp := kvmodel.Span{Start: string(st), End: string(en)}
+				for _, rk := range it.RangeKeys() {
+					sp.Keys = append(sp.Keys, kvmodel.RKey{Suf: string(rk.Suffix), Val: string(rk.Value)})
+				}
+				r.spans = append(r.spans, sp)
+			}
+		}
+	}
 	if reverse {
 		r.kind = "rscan"
 		for ok := it.Last(); ok; ok = it.Prev() {
-			v, _ := it.ValueAndErr()
-			r.pts = append(r.pts, kvmodel.KV{K: string(it.Key()), V: string(v)})
+			visit()
 		}
 		for i, j := 0, len(r.pts)-1; i < j; i, j = i+1, j-1 {
 			r.pts[i], r.pts[j] = r.pts[j], r.pts[i]
 		}
+		for i, j := 0, len(r.spans)-1; i < j; i, j = i+1, j-1 {
+			r.spans[i], r.spans[j] = r.spans[j], r.spans[i]
+		}
 	} else {
 		for ok := it.First(); ok; ok = it.Next() {
-			v, _ := it.ValueAndErr()
-			r.pts = append(r.pts, kvmodel.KV{K: string(it.Key()), V: string(v)})
+			visit()
 		}
 	}
 	err = it.Error()
@@ -411,6 +446,9 @@ func (h *dbHarness) verifyConcurrent() {
 				}
 			} else {
 				d := kvmodel.DiffPoints(st.Points(), r.pts)
+				if d == "" && r.hasSpans {
+					d = diffSpans(st.Spans(), r.spans)
+				}
 				ok = d == ""
 				if !ok {
 					firstDiff += fmt.Sprintf(" [vs prefix of %d groups: %s]", j, d)
@@ -473,10 +511,38 @@ func (h *dbHarness) describeTorn(m *kvmodel.Model, done []*cGroup, r *cRead) str
 	for _, kv := range r.pts {
 		have[kv.V] = true
 	}
+	for _, sp := range r.spans {
+		for _, k := range sp.Keys {
+			have[k.Val] = true
+		}
+	}
+	isRK := func(k string) bool { return k == "rkset" || k == "rkunset" || k == "rkdel" }
+	overlaps := func(a, b kvmodel.Op) bool {
+		return kvmodel.Compare(a.Key, b.End) < 0 && kvmodel.Compare(b.Key, a.End) < 0
+	}
 	for _, g := range done {
 		seen, missing := 0, 0
 		var missKey string
 		for _, o := range g.g.Ops {
+			if o.K == "rkset" && r.hasSpans {
+				if have[o.Val] {
+					seen++
+					continue
+				}
+				over := false
+				for _, g2 := range done {
+					for _, o2 := range g2.g.Ops {
+						if isRK(o2.K) && (g2.seq > g.seq || (g2 == g && &o2 != &o)) && overlaps(o, o2) && o2.Val != o.Val {
+							over = true
+						}
+					}
+				}
+				if !over {
+					missing++
+					missKey = o.Key + "-" + o.End + " (range key)"
+				}
+				continue
+			}
 			if o.K != "set" {
 				continue
 			}
